@@ -73,6 +73,7 @@ CFG = {
             "Every pair is evaluated by the harness under five operand layouts (plain; packed = consecutive windows of one flat buffer with spare capacity; "
             "shared = prefix lists are re-slices of the other operand's backing array / same slice on both sides; nil for empty; in-place overwrite of an "
             "already-compared operand), four calls per layout (AB, BA, AB, BA) with a bit-for-bit comparison of both operands after every call. "
+            "a vertex moved by exactly pred(tol) (T) and succ(tol) (F) with exact differences, tol 0.5/0.1/2^-30/3/2^30, in point, line, multi-point, bounds, ring. "
             "nil interface values (~340 'nilm' lines): nil operand, nil members of (nested) collections on either side, before/after matched and unmatched "
             "members, with equal and different counts: answers AND panics compared with the fault model simE. "
             "distinct = distinct input line; non-trivial = every class",
